@@ -21,8 +21,8 @@ META = {
         'C15.COV - the decomposed matrix is np.cov / np.corrcoef of the (standardised) data over columns, i.e. mean-centred; '
         'C15.PURE-PROPS - the lazy properties of computechi2 and pcomp neither assign attributes nor write in place into attribute '
         'arrays (reading them in any order gives the same values); C15.PINV - computechi2 forms the pseudo-inverse from every singular value, with no absolute cut-off; C15.SYNW - the synthetic weights of pca_solve never become 0 for a pixel masked in every spectrum; C15.USEMASK - pca_solve returns outmask.sum(0), the count of good '
-        'spectra per pixel. C15.DOF - degrees of freedom count sqivar > 0 minus nstar; C15.NORM - normbase takes the rms over the current length of self.g. NOT decided: every optimality, monotonicity, normalisation and projection statement (numerical).'),
-    'floors': {'C15.DOF': 1, 'C15.NORM': 1, 'C15.HMF-IMMUT': 2, 'C15.SEED': 2, 'C15.EIG-ALIGN': 2, 'C15.COV': 2, 'C15.PURE-PROPS': 10, 'C15.USEMASK': 1, 'C15.PINV': 2, 'C15.SYNW': 1},
+        'spectra per pixel. C15.DOF - degrees of freedom count sqivar > 0 minus nstar; C15.NORM - normbase takes the rms over the current length of self.g. C15.CHI2-RESID - computechi2.chi2 is formed from the residual vector (difference, square, sum), not by a cancelling normal-equation shortcut; NOT decided: every optimality, monotonicity, normalisation and projection statement (numerical).'),
+    'floors': {'C15.CHI2-RESID': 1, 'C15.DOF': 1, 'C15.NORM': 1, 'C15.HMF-IMMUT': 2, 'C15.SEED': 2, 'C15.EIG-ALIGN': 2, 'C15.COV': 2, 'C15.PURE-PROPS': 10, 'C15.USEMASK': 1, 'C15.PINV': 2, 'C15.SYNW': 1},
 }
 
 SPEC1D = 'pydl/pydlspec2d/spec1d.py'
@@ -84,7 +84,16 @@ def check_seed(ctx, repo):
     f = repo.func(SPEC1D, 'HMF.iterate')
     fa = FA(f)
     seeds = [c for c in walk_local(f.node) if isinstance(c, ast.Call) and (dotted(c.func) or '').endswith('random.seed')]
-    ctx.need(seeds, 'HMF.iterate: np.random.seed call not found')
+    if not seeds:
+        stoch0 = [c for c in walk_local(f.node) if isinstance(c, ast.Call) and (call_name(c) in ('kmeans', 'kmeans2') or
+                                                                            'random.' in (dotted(c.func) or ''))]
+        ctx.need(stoch0, 'HMF.iterate: neither a seeding call nor a stochastic call found')
+        for c in stoch0:
+            ctx.check('C15.SEED', False, f, c, '',
+                      msg='HMF.iterate draws from numpy\'s global generator (`%s`) without seeding it in the same call: whatever else used the generator since the '
+                          'object was made (or a second iterate() / solve()) changes the result, so a fixed seed no longer gives identical results' % src(c)[:50],
+                      construct='stochastic call without seeding in iterate: ' + src(c)[:50])
+        return
     for c in seeds:
         st = c
         while not isinstance(st, ast.stmt):
@@ -313,8 +322,47 @@ def check_dof_norm(ctx, repo):
                   'the components are no longer normalised to unit rms' % src(v)[:70], construct='normbase ' + src(v)[:70])
 
 
+def check_chi2_resid(ctx, repo):
+    """C15.CHI2-RESID: chi2 is the squared length of the residual vector (M a - b), formed as a difference of the two vectors and then
+    squared and summed.  The normal-equation shortcut |b|^2 - a.(M^T b) is the same number in exact arithmetic only: it subtracts two
+    large nearly equal quantities, so for a good fit the returned chi-square is rounding noise (possibly negative)."""
+    f = repo.func(MATH, 'computechi2.chi2')
+    fa = FA(f)
+    ctx.cover(f)
+    rets = [r for r in fa.returns() if r.value is not None]
+    ctx.need(len(rets) == 1, 'computechi2.chi2: single return expected')
+    e = expand(rets[0].value, fa, depth=5, calls=True)
+
+    def mentions(x, attr):
+        return any(isinstance(y, ast.Attribute) and y.attr == attr for y in ast.walk(x))
+    resid = [x for x in ast.walk(e) if isinstance(x, ast.BinOp) and isinstance(x.op, ast.Sub) and (
+        (mentions(x.left, 'bvec') and (mentions(x.right, 'mmatrix') or mentions(x.right, 'yfit') or mentions(x.right, 'amatrix'))) or
+        (mentions(x.right, 'bvec') and (mentions(x.left, 'mmatrix') or mentions(x.left, 'yfit') or mentions(x.left, 'amatrix'))))
+        and not any(isinstance(y, ast.Call) and call_name(y) == 'dot' and (mentions(y, 'bvec') and not mentions(y, 'mmatrix') and not mentions(y, 'amatrix'))
+                    for y in [x.left, x.right])]
+    squared = False
+    for r in resid:
+        p_ = getattr(r, '_parent', None)
+        for a in [p_] + list(ancestors(r)) if p_ is not None else []:
+            if isinstance(a, ast.BinOp) and isinstance(a.op, ast.Pow) and try_fold(a.right) == 2:
+                squared = True
+            if isinstance(a, ast.Call) and call_name(a) in ('dot', 'vdot', 'inner', 'norm', 'square'):
+                squared = True
+    # the expansion is a fresh tree without parent links: look structurally instead
+    if resid and not squared:
+        for a in ast.walk(e):
+            if isinstance(a, ast.BinOp) and isinstance(a.op, ast.Pow) and try_fold(a.right) == 2 and any(a.left is r or r in list(ast.walk(a.left)) for r in resid):
+                squared = True
+            if isinstance(a, ast.Call) and call_name(a) in ('dot', 'vdot', 'inner', 'norm', 'square') and any(r in list(ast.walk(a)) for r in resid):
+                squared = True
+    ctx.check('C15.CHI2-RESID', bool(resid) and squared, f, rets[0], 'chi2 is the squared length of the residual vector (model minus data, squared, summed)',
+              msg='computechi2.chi2 is `%s`: not the squared length of a residual vector; a form like |b|^2 - a.(M^T b) cancels two large nearly equal '
+                  'numbers, so the chi-square of a good fit is rounding noise and can be negative' % src(rets[0].value)[:80], construct='chi2 formula ' + src(rets[0].value)[:60])
+
+
 def run(ctx):
     from ..memo import check_memo_keys
+    check_chi2_resid(ctx, ctx.repo)
     check_memo_keys(ctx, ctx.repo, SPEC1D, 'HMF', 'C15.MEMO-KEY')
     check_dof_norm(ctx, ctx.repo)
     check_pinv(ctx, ctx.repo)
